@@ -39,6 +39,7 @@ C02_UNITS = [U(V1, f"{VI}.{m}") for m in ["_get_value_next_state", "_calculate_u
              "_calculate_updated_value_state_batch", "_calculate_updated_value_scan_state_batches", "_update_values",
              "_extract_policy_idx_one_state", "_extract_policy_idx_state_batch", "_extract_policy_idx_scan_state_batches", "_extract_policy"]]
 PROPS["C02"] = dict(
+    bounded=[dict(name="c02_runtime", script="harness_solvers.py", args=["--prop", "c02"], wall_s=300)],
     level="proof", units=C02_UNITS + PROPS["C18"]["units"][2:3],
     lean=["bell_discop", "bellpol_discop", "contraction", "span_contraction", "greedy_eq", "bellpol_le_bell"],
     links={"bell_discop": "monotone + shift-by-gamma*c of the operator that value_iteration.ValueIteration._update_values.post.elementwise proves the sweep to be (hypotheses P>=0, rows sum to 1 = WF-prob, discharged for the shipped problems under C13)",
@@ -47,6 +48,7 @@ PROPS["C02"] = dict(
     assumptions=SOLVER_ASSUME + ["the abstract problem satisfies WF-shape (N, A, E >= 1); transition / probability / state_to_index are uninterpreted functions of opaque vectors, so the result holds for every problem and every vector dimension"],
 )
 PROPS["C08"] = dict(
+    bounded=[dict(name="c08_runtime", script="harness_solvers.py", args=["--prop", "c08"], wall_s=300)],
     level="proof", units=[U(V1, f"{VI}.{m}") for m in ["_get_span", "_get_max_diff", "_iteration_step", "solve"]]
                        + [U(["contracts.logging_configs"], "mdpax.solvers.value_iteration.ValueIteration._setup_convergence_testing", only=["pos."])],
     assumptions=SOLVER_ASSUME,
@@ -63,25 +65,25 @@ HX = "mdpax.problems.perishable_inventory.hendrix_two_product.HendrixTwoProductP
 MJ = "mdpax.problems.perishable_inventory.mirjalili_platelet.MirjaliliPlateletPerishable"
 FO = "mdpax.problems.forest.Forest"
 RVM = V1 + ["contracts.rvi"]
-PROPS["C04"] = dict(level="proof",
+PROPS["C04"] = dict(level="proof", bounded=[dict(name="c04_runtime", script="harness_solvers.py", args=["--prop", "c04"], wall_s=300)],
     units=[U(RVM, f"{RV}._iteration_step"), U(RVM, f"{SOLV}._initialize_values"), U(RVM, f"{RV}._initialize_solver_state_elements"),
            U(RVM, f"{RV}.solve", timeout_ms=20000)],
     lean=["rvi_gain_within", "rvi_monotone_bracket", "policy_gain_bracket", "policy_gain_eq"], assumptions=SOLVER_ASSUME,
     replayers=[("*RelativeValueIteration*", "replay_c04.py")])
 PIM = V1 + ["contracts.pi"]
-PROPS["C05"] = dict(level="proof",
+PROPS["C05"] = dict(level="proof", bounded=[dict(name="c05_runtime", script="harness_solvers.py", args=["--prop", "c05"], wall_s=300)],
     units=[U(PIM, f"{PI}.{m}") for m in ["_calculate_policy_value_state_batch", "_calculate_policy_values", "_evaluate_policy", "_iteration_step"]],
     lean=["eval_bound", "eval_bound_threshold"], assumptions=SOLVER_ASSUME)
 SAM = ["contracts.value_iteration", "contracts.semi_async"]
-PROPS["C06"] = dict(level="proof",
+PROPS["C06"] = dict(level="proof", bounded=[dict(name="c06_runtime", script="harness_solvers.py", args=["--prop", "c06"], wall_s=300)],
     units=[U(SAM, f"{SA}._calculate_updated_value_scan_state_batches", timeout_ms=30000), U(SAM, f"{SA}._shuffle_states"), U(SAM, f"{SA}._reorder_values")],
     lean=["gs_fixed_point", "gs_fixed_converse", "perm_argsort_inv"], assumptions=SOLVER_ASSUME)
 PVM = V1 + ["contracts.periodic"]
-PROPS["C07"] = dict(level="proof",
+PROPS["C07"] = dict(level="proof", bounded=[dict(name="c07_runtime", script="harness_solvers.py", args=["--prop", "c07"], wall_s=300)],
     units=[U(PVM, f"{PV}._calculate_period_span_without_discount", timeout_ms=30000), U(PVM, f"{PV}._calculate_period_span_with_discount", timeout_ms=30000),
            U(PVM, f"{PV}._iteration_step", timeout_ms=30000), U(PVM, f"{PV}.solve", pop=[f"{PV}._iteration_step"], timeout_ms=20000)],
     lean=["periodic_gain_bracket", "periodic_gain_within"], assumptions=SOLVER_ASSUME)
-PROPS["C17"] = dict(level="proof", units=[U(["contracts.matrices"], PB, timeout_ms=20000)], lean=["matrix_backup_eq"], assumptions=SOLVER_ASSUME)
+PROPS["C17"] = dict(level="proof", bounded=[dict(name="c17_runtime", script="harness_solvers.py", args=["--prop", "c17"], wall_s=300)], units=[U(["contracts.matrices"], PB, timeout_ms=20000)], lean=["matrix_backup_eq"], assumptions=SOLVER_ASSUME)
 PROPS["C15"] = dict(level="proof", units=[U(["contracts.problems"], f"{t}.transition", timeout_ms=30000, wall_s=1200) for t in (DM, HX, MJ, FO)], assumptions=[ARITH, ENGINE])
 PROPS["C13"] = dict(level="proof", units=[U(["contracts.probabilities"], f"{DM}.{m}", timeout_ms=20000) for m in ("_convert_gamma_parameters", "_calculate_demand_probabilities")], lean=["telescope"], assumptions=[ARITH, ENGINE])
 
